@@ -374,6 +374,55 @@ var c08Foreign = []c08ForeignCase{
 	}},
 }
 
+// whatever was converted before, a conversion to a larger struct is refused: the answer for one target type
+// must not be replayed for another (state kept between calls)
+func c08AfterSuccess(it ap.Item, size uintptr, first string) string {
+	for round := 0; round < 2; round++ {
+		if _, err := c08Fns[first](it); err != nil {
+			return "" // refusing everything is allowed
+		}
+		for _, fn := range c08FnOrder {
+			if fn == first {
+				continue
+			}
+			var v interface{}
+			var err error
+			if p, msg := guard(func() { v, err = c08Fns[fn](it) }); p {
+				return fn + " after " + first + ": panic: " + msg
+			}
+			if err != nil || v == nil {
+				continue
+			}
+			rv := reflect.ValueOf(v)
+			if rv.Kind() == reflect.Ptr && !rv.IsNil() && rv.Elem().Kind() == reflect.Struct && rv.Elem().Type().Size() > size {
+				return fmt.Sprintf("%s after a successful %s hands out a %d-byte view of a %d-byte value", fn, first, rv.Elem().Type().Size(), size)
+			}
+		}
+	}
+	return ""
+}
+
+func init() {
+	c08Foreign = append(c08Foreign,
+		c08ForeignCase{"refusals after ToObject(*foreign note)", func() string {
+			n := &c08FNote{ID: "https://example.com/f/5", Type: ap.NoteType}
+			return c08AfterSuccess(n, reflect.TypeOf(*n).Size(), "ToObject")
+		}},
+		c08ForeignCase{"refusals after ToActor(*foreign actor)", func() string {
+			n := &c08FActor{ID: "https://example.com/f/6", Type: ap.PersonType}
+			return c08AfterSuccess(n, reflect.TypeOf(*n).Size(), "ToActor")
+		}},
+		c08ForeignCase{"refusals after ToObject(*foreign actor)", func() string {
+			n := &c08FActor{ID: "https://example.com/f/7", Type: ap.PersonType}
+			return c08AfterSuccess(n, reflect.TypeOf(*n).Size(), "ToObject")
+		}},
+		c08ForeignCase{"refusals after ToActivity(*foreign activity)", func() string {
+			n := &c08FActivity{ID: "https://example.com/f/8", Type: ap.CreateType}
+			return c08AfterSuccess(n, reflect.TypeOf(*n).Size(), "ToActivity")
+		}},
+	)
+}
+
 type c08OnHelper struct {
 	name string
 	run  func(it ap.Item) reflect.Type
